@@ -277,6 +277,8 @@ PROPS = {
             ('routing', r'^GenericSocketBackend::peer_disconnected$', A, None),
             ('reqrep', r'^RepSocket::recv$', {'post', 'inv-entry', 'inv-end'}, None),
             ('reqrep', r'^(RepSocketBackend|ReqSocketBackend)::peer_disconnected$', A, None),
+            # REQ reads its peer directly: a failed read forgets that peer, so that the next send is not routed to it
+            ('reqrep', r'^ReqSocket::recv$', {'post'}, r'req_received_from'),
             ('sub', r'^SubSocket::recv$', F, None),
             ('sub', r'^SubSocketBackend::peer_disconnected$', A, None),
             ('pubsub', r'^XPubSocket::recv$', F, None),
@@ -293,7 +295,7 @@ PROPS = {
             '"released" is read as: no table entry and no queued read half is left for that identity - in Rust both halves are then dropped, which closes the transport; Drop itself, buffers inside asynchronous-codec and descriptor counts are not modelled',
             'GenericSocketBackend::peer_disconnected and QueueInner::remove are verified bodies (units routing / fairqueue); the fair queue also drops a stream that has ENDED (Ready(None)) by itself (unit fairqueue, reported under C14)',
         ],
-        'not_covered': ['"never spins or hangs" as a liveness statement (only its cause - the read half left in the queue - is excluded)', 'REQ: ReqSocket::recv reads the peer directly and does not forget it when the read fails (seen by reading, DESIGN section 5; not under this contract); the PUB reader task (spawned; select!)', 'repeated connect / disconnect cycles over real transports, descriptor counts'],
+        'not_covered': ['"never spins or hangs" as a liveness statement (only its cause - the read half left in the queue - is excluded)', 'the PUB reader task (spawned; select!)', 'repeated connect / disconnect cycles over real transports, descriptor counts'],
     },
     'C03': {
         'units': ['codec', 'handshake', 'pubsub', 'reqrep', 'routing'],
